@@ -42,6 +42,8 @@ func renameInDecl(d *ast.Decl, from, to string) {
 }
 
 // boundNames lists the names bound inside a declaration (parameters, explicit provider, binders).
+func BoundNames(d *ast.Decl) []string { return boundNames(d) }
+
 func boundNames(d *ast.Decl) []string {
 	seen := map[string]bool{}
 	var out []string
@@ -344,6 +346,7 @@ func (d D) Candidates(p *ast.Program, mode string, n int) []RenameStep {
 	}
 	// names bound inside the functions a declaration calls: the caller/callee coincidences
 	calleeNames := map[int][]string{}
+	argNames := map[int][]string{} // bound names of a declaration that it passes to a function
 	byName := map[string]int{}
 	for i, dc := range p.Decls {
 		if dc.Kind == ast.DFun {
@@ -355,7 +358,18 @@ func (d D) Candidates(p *ast.Program, mode string, n int) []RenameStep {
 			continue
 		}
 		seenFn := map[string]bool{}
+		bound := map[string]bool{}
+		for _, n := range perDecl[i] {
+			bound[n] = true
+		}
 		dc.Body.Walk(func(t *ast.Term) {
+			if t.Kind == ast.TCall {
+				for _, a := range t.Args {
+					if !a.Self && bound[a.S] {
+						argNames[i] = append(argNames[i], a.S)
+					}
+				}
+			}
 			if t.Kind == ast.TCall && !seenFn[t.Fn] {
 				seenFn[t.Fn] = true
 				if j, ok := byName[t.Fn]; ok {
@@ -372,14 +386,27 @@ func (d D) Candidates(p *ast.Program, mode string, n int) []RenameStep {
 		}
 	}
 	sort.Ints(declIdx)
+	var callerIdx []int // declarations that pass a bound name to a function
+	for _, i := range declIdx {
+		if len(argNames[i]) > 0 && len(calleeNames[i]) > 0 {
+			callerIdx = append(callerIdx, i)
+		}
+	}
 	for k := 0; k < n; k++ {
 		switch x := d.Pick(10, "what"); {
 		case x < 6 && len(declIdx) > 0:
 			di := declIdx[d.Pick(len(declIdx), "decl")]
+			if mode == "reuse" && len(callerIdx) > 0 && d.Likely(50, "callerdecl") {
+				di = callerIdx[d.Pick(len(callerIdx), "caller")]
+			}
 			from := perDecl[di][d.Pick(len(perDecl[di]), "from")]
 			to, cross := newName()
 			if mode == "reuse" && len(calleeNames[di]) > 0 && d.Likely(45, "calleename") {
 				to, cross = calleeNames[di][d.Pick(len(calleeNames[di]), "callee")], true
+				if len(argNames[di]) > 0 && d.Likely(60, "argname") {
+					// a name handed to the callee meets a name the callee binds
+					from = argNames[di][d.Pick(len(argNames[di]), "arg")]
+				}
 			}
 			if to != from {
 				steps = append(steps, RenameStep{Kind: "channel", Decl: di, From: from, To: to, Cross: cross})
